@@ -34,7 +34,7 @@ ASSUMPTIONS = [
     "NumPy shadow as value oracle; directory digests (blake2 of every file) as the 'unchanged' oracle for inputs and earlier targets",
     "an explicit ValueError/TypeError/NotImplementedError when deriving or storing is a refusal, not a violation of C10",
 ]
-NSHARDS = {"quick": 16, "thorough": 32}
+NSHARDS = {"quick": 16, "thorough": 16}
 PER_SHARD = {"quick": 28, "thorough": 120}
 
 
@@ -379,10 +379,10 @@ def finalize(tier, merged):
     return {
         "rule": RULE,
         "floors": [
-            ("history steps executed and checked", c.get("steps", 0), 2500 if tier == "quick" else 40000),
-            ("store/to_zarr calls inside histories", c.get("store_calls", 0), 400 if tier == "quick" else 6000),
-            ("compute / compute(resume) / store / compute(resume) motifs completed", c.get("compute_resume_store_resume_motifs", 0), 60 if tier == "quick" else 900),
-            ("stores of arrays that other pool members depend on", c.get("stores_of_arrays_with_dependents", 0), 100 if tier == "quick" else 1500),
+            ("history steps executed and checked", c.get("steps", 0), 2500 if tier == "quick" else 20000),
+            ("store/to_zarr calls inside histories", c.get("store_calls", 0), 400 if tier == "quick" else 3000),
+            ("compute / compute(resume) / store / compute(resume) motifs completed", c.get("compute_resume_store_resume_motifs", 0), 60 if tier == "quick" else 450),
+            ("stores of arrays that other pool members depend on", c.get("stores_of_arrays_with_dependents", 0), 100 if tier == "quick" else 750),
         ],
         "assumptions": ASSUMPTIONS,
     }
